@@ -3,6 +3,7 @@ package main
 import (
 	"context"
 	"encoding/json"
+	"strconv"
 	"sync"
 	"time"
 
@@ -45,6 +46,10 @@ func runConn(sc *ConnScenario) *RetryResult {
 	switch sc.ConnAck {
 	case "refuse":
 		plan.ConnAcks = []netsim.ConnAckPlan{{Code: 5}}
+	case "refuse1", "refuse6", "refuse17", "refuse128", "refuse255":
+		// every return code other than 0 refuses the connection, also the ones MQTT 3.1.1 does not name (6..255)
+		n, _ := strconv.Atoi(sc.ConnAck[6:])
+		plan.ConnAcks = []netsim.ConnAckPlan{{Code: n}}
 	case "silent", "malformed", "peerclose":
 		plan.ConnAcks = []netsim.ConnAckPlan{{Silent: true}}
 	}
